@@ -20,6 +20,7 @@ pub struct Sink {
     pub acc: Vec<u8>,
     mode: u64,
     k: usize,
+    burst: u32,
     fired: bool,
     pub writes: u32,
     pub faults: u32,
@@ -27,7 +28,9 @@ pub struct Sink {
 
 impl Sink {
     fn new(mode: u64, k: usize) -> Sink {
-        Sink { acc: Vec::new(), mode, k, fired: false, writes: 0, faults: 0 }
+        // modes 6.. = write-interrupted-burst: (mode - 4) consecutive EINTR answers
+        let burst = if mode >= 6 { (mode - 4) as u32 } else { 0 };
+        Sink { acc: Vec::new(), mode: mode.min(6), k, burst, fired: false, writes: 0, faults: 0 }
     }
 }
 
@@ -58,6 +61,15 @@ impl Write for Sink {
                     self.fired = true;
                     self.faults += 1;
                     return Err(io::Error::new(io::ErrorKind::Interrupted, "simulated EINTR"));
+                }
+                buf.len()
+            }
+            6 => {
+                // write-interrupted-burst: from byte k on, the next `burst` write calls fail with EINTR
+                if self.burst > 0 && self.acc.len() + buf.len() > self.k {
+                    self.burst -= 1;
+                    self.faults += 1;
+                    return Err(io::Error::new(io::ErrorKind::Interrupted, "simulated EINTR burst"));
                 }
                 buf.len()
             }
@@ -153,23 +165,46 @@ fn gen_ser_msg(rng: &mut Rng, parsed_ok: bool) -> Item {
                 let n = *rng.pick(&[65535usize, 65534, 40000]);
                 m.set("ext", Val::Bytes(rng.bytes(n)));
             }
+            if rng.chance(1, 8) {
+                let n = *rng.pick(&[0usize, 127, 128, 129, 254, 255]);
+                m.set("comp", Val::Bytes(rng.bytes(n)));
+            }
             if rng.chance(1, 10) {
-                m.set("comp", Val::Bytes(rng.bytes(255)));
+                let n = *rng.pick(&[0usize, 1, 127, 128, 129, 255, 256]);
+                m.set("ciphers", Val::Bytes(rng.bytes(n * 2)));
+            }
+            if rng.chance(1, 10) {
+                let n = *rng.pick(&[0usize, 1, 255, 256, 257]);
+                m.set("ext", Val::Bytes(rng.bytes(n)));
             }
             m
         }
         4..=6 => gen::handshake(rng, "server_hello", 200),
         7 => gen::handshake(rng, "server_hello_d18", 200),
-        8 => gen::handshake(rng, "client_key_exchange", 300),
+        8 => {
+            let mut m = gen::handshake(rng, "client_key_exchange", 300);
+            if rng.chance(1, 4) {
+                let n = *rng.pick(&[0usize, 1, 255, 256, 65535, 65536, 70000]);
+                m.set("body", Val::Bytes(rng.bytes(n)));
+            }
+            m
+        }
         9 if !parsed_ok => {
-            let n = rng.small_len(600);
+            let n = if rng.chance(1, 3) { *rng.pick(&[0usize, 1, 127, 128, 255, 256, 257, 4096]) } else { rng.small_len(600) };
             Item::new("client_key_exchange_dh").bytes("body", &rng.bytes(n))
         }
         10 if !parsed_ok => {
-            let n = rng.small_len(255);
+            let n = if rng.chance(1, 3) { *rng.pick(&[0usize, 1, 127, 128, 254, 255]) } else { rng.small_len(255) };
             Item::new("client_key_exchange_ecdh").bytes("body", &rng.bytes(n))
         }
-        9 | 10 | 11 => gen::handshake(rng, "finished", 80),
+        9 | 10 | 11 => {
+            let mut m = gen::handshake(rng, "finished", 80);
+            if rng.chance(1, 5) {
+                let n = *rng.pick(&[0usize, 12, 255, 256, 65535, 65536]);
+                m.set("body", Val::Bytes(rng.bytes(n)));
+            }
+            m
+        }
         12 => Item::new("hello_request"),
         13 => Item::new("ccs"),
         _ => {
@@ -202,7 +237,7 @@ fn gen_ext(rng: &mut Rng) -> Item {
         }
         2 => Item::new("xmaxfrag").int("v", rng.u8() as u64),
         3 => {
-            let n = rng.small_len(20);
+            let n = if rng.chance(1, 4) { *rng.pick(&[0usize, 1, 127, 128, 255, 256]) } else { rng.small_len(20) };
             Item::new("xgroups").bytes("groups", &rng.bytes(n * 2))
         }
         _ => Item::new("xother").int("which", rng.below(8)),
@@ -213,7 +248,10 @@ fn sink_plan(rng: &mut Rng, len_hint: usize) -> (u64, u64) {
     if rng.chance(1, 2) {
         return (0, 0);
     }
-    let mode = rng.range(1, 5);
+    let mode = match rng.below(7) {
+        6 => rng.range(6, 14), // EINTR bursts of 2..10 consecutive calls
+        m => m.max(1).min(5),
+    };
     let k = match rng.below(4) {
         0 => rng.range(0, 8),                                  // around the first write-call boundaries (type, u24 length)
         1 => len_hint as u64,                                  // exactly full
@@ -380,6 +418,7 @@ pub fn execute(scn: &Scenario, ctx: &mut Ctx) {
             3 => ctx.fault("write-interrupted"),
             4 => ctx.fault("write-error"),
             5 => ctx.fault("sink-full"),
+            6.. => ctx.fault("write-interrupted-burst"),
             _ => {}
         }
         match op.s("what") {
